@@ -319,7 +319,7 @@ def run(ctx):
         ctx.check(io.text(write_rhs(io, w)) == "this->state_.numDiscarded" and LOCK in LA.held(io, w), "drop-count-snapshot", "provenance", io.loc(w),
                   "the reported count is a snapshot taken under the lock", "reported drop count is " + io.text(write_rhs(io, w)))
     # after observing the stop flag the held queue is still written
-    lp = [l for l in loops(io) if l["stmt"] is not None and io.nodes[l["stmt"]]["k"] in ("while", "do")]
+    lp = [l for l in loops(io) if l["stmt"] is not None and io.nodes[l["stmt"]]["k"] in ("while", "do", "for") and loop_container(io, l) is None]
     # the loop over the held queue (range-for, iterator or index form) and the sink writes of its elements
     Xio = Expander(P, io)
     qloops = [l for l in loops(io) if loop_container(io, l) == "*" + QL]
@@ -337,7 +337,7 @@ def run(ctx):
             continue
         if not (re.match(r"^%s->c?begin\(\)$" % re.escape(QL), io.text(n_["args"][0])) and re.match(r"^%s->c?end\(\)$" % re.escape(QL), io.text(n_["args"][1]))):
             continue
-        lam = P.fns.get(io.nodes[io.strip(n_["args"][2])].get("lusr"))
+        lam = P.closure_fn(io.nodes[io.strip(n_["args"][2])].get("lusr"))
         if lam is None or len(lam.params) != 1:
             continue
         lw = [j for j in lam.calls() if lam.nodes[j].get("op") == "<<" and re.search(r"\b%s\b" % re.escape(SINK), lam.text(j)) and
@@ -447,5 +447,15 @@ def run(ctx):
         t = " ".join(l.text(l.nodes[r]["val"]) for r in returns(l) if "val" in l.nodes[r])
         if "ioThreadRunning" in t:
             ctx.use(l)
-            ctx.check("!this->state_.ioThreadRunning" in t and re.search(r"\b%s->size\(\)|!%s->empty\(\)" % (re.escape(QL), re.escape(QL)), t) is not None, "wait-predicate", "value-shape", l.loc(),
+            okw = "!this->state_.ioThreadRunning" in t and re.search(r"\b%s->size\(\)|!%s->empty\(\)" % (re.escape(QL), re.escape(QL)), t) is not None
+            rs_ = [r for r in returns(l) if "val" in l.nodes[r]]
+            if not okw and len(rs_) == 1:
+                # any spelling of "stop requested OR lines queued": the predicate is FALSE exactly under (still running AND queue empty)
+                fs_ = CondNorm(l, P).decompose(l.nodes[rs_[0]]["val"], False)
+                run_ = [1 for k, p_ in fs_ if isinstance(k, str) and k.endswith("state_.ioThreadRunning") and p_ is True]
+                emp_ = [1 for k, p_ in fs_ if isinstance(k, str) and ((re.search(r"\b%s->empty\(\)$" % re.escape(QL), k) and p_ is True) or
+                                                                       (re.search(r"\b%s->size\(\)$" % re.escape(QL), k) and p_ is False) or
+                                                                       (re.search(r"^\((0 == %s->size\(\)|%s->size\(\) == 0)\)$" % (re.escape(QL), re.escape(QL)), k) and p_ is True))]
+                okw = len(fs_) == 2 and len(run_) == 1 and len(emp_) == 1
+            ctx.check(okw, "wait-predicate", "value-shape", l.loc(),
                       "the flusher wakes for stop or for queued lines", "wait predicate is " + t)
